@@ -246,7 +246,28 @@ theorem marshal_unmarshal_string (toASCII : Bytes → Option Bytes)
   rw [this]
   exact marshal_unmarshal toASCII r0 r0' r line hacc
 
+/-! ### the result depends on the fields only -/
+
+/-- **The outcome is a function of the fields.**  Two lines with the same blank-separated
+fields before their comments get the same result from `UnmarshalText` — the same record
+*and* the same error: the amount and kind (space or tab) of blank between fields, leading and
+trailing blanks, and the comment never matter. -/
+theorem unmarshal_fields_only (toASCII : Bytes → Option Bytes) (r : Record) (line line' : Bytes)
+    (h : fields line = fields line') :
+    unmarshalText toASCII r line = unmarshalText toASCII r line' := by
+  rw [unmarshalText_eq, unmarshalText_eq, h]
+
+/-- **The comment is never read**: everything from the first `'#'` on is irrelevant to the
+record and to the error (for every `pre`, with or without a `'#'` of its own). -/
+theorem comment_irrelevant (toASCII : Bytes → Option Bytes) (r : Record) (pre c : Bytes) :
+    unmarshalText toASCII r (pre ++ hash :: c) = unmarshalText toASCII r pre :=
+  unmarshal_fields_only toASCII r _ _ (by unfold fields; rw [stripComment_append_hash])
+
 /-! ### Non-vacuity -/
+
+/-- premise of `unmarshal_fields_only` on two differently spaced and commented lines -/
+example : fields (ascii " 1.2.3.4\ta.b  c \t# x y") = fields (ascii "1.2.3.4 a.b c") := by decide
+
 
 def idAscii : Bytes → Option Bytes := some
 
